@@ -14,6 +14,7 @@
 #include "scen_c04.h"
 #include "scen_c10.h"
 #include "scen_c09.h"
+#include "scen_c15.h"
 #include "scen_tpm12.h"
 
 int main(int argc, char **argv) {
@@ -39,6 +40,7 @@ int main(int argc, char **argv) {
     else if (!strcmp(prop, "C06")) scen_c06(thorough ? 12 : 3, 30, thorough ? 4000 : 350);
     else if (!strcmp(prop, "C01")) scen_c01(thorough ? 40 : 5, 25, thorough ? 1500 : 400);
     else if (!strcmp(prop, "C13")) scen_c13(thorough ? 2500 : 250, thorough ? 3 : 1);
+    else if (!strcmp(prop, "C15")) scen_c15(thorough ? 4 : 3, thorough ? 400 : 60, 12, (int)(seed % 1000), thorough ? 16 : 6);
     else if (!strcmp(prop, "C09")) scen_c09(thorough ? 100 : 8, thorough ? 500 : 200);
     else if (!strcmp(prop, "C10")) scen_c10(thorough ? 120 : 10, thorough ? 400 : 150);
     else if (!strcmp(prop, "C04")) scen_c04(thorough ? 60 : 6, thorough ? 400 : 150);
